@@ -9,9 +9,13 @@ for all arguments (coq/geneq/GeohashGenEq.v);
 (K) the bisection algorithms are compared with the model by vm_compute on every in-range cell
 down to depth 3/2/2 and on seeded random coordinates at lengths 1..12.  The property itself is
 also evaluated on the implementation's answers (oracle_*), so that a break is reported with a
-concrete failing input."""
+concrete failing input.  Two families look at HISTORIES rather than single calls: (2b) many
+coordinates encoded in one call, successive ones exactly on the edges/corners of the previous one's
+cell (the geohash of a coordinate is a function of that coordinate alone); (2c) ask / change the
+returned mutable container in place / ask again (answers are values, not shared storage)."""
 import itertools
 import json
+import math
 import os
 import sys
 import traceback
@@ -109,6 +113,117 @@ def impl_box(h, base, route):
 
 def impl_children(h, base):
     return guarded(lambda: sorted(GH._get_niemeyer_subhashes(h, base)))
+
+
+# ------------------------------------------------------------------ many coordinates in one call
+SEQ_ROUTES = ('hash_coordinates', 'hash_collection', 'hash_coordinates-again')
+
+
+def impl_sequence(coords, L, base, route):
+    """One call of a public entry that encodes MANY coordinates; returns the geohash under which each
+    coordinate of the sequence was filed (by position), judged by object identity of what agg_fn received.
+    Raises if a coordinate is filed under no / several keys (the caller turns that into a malformed case)."""
+    hasher = GH.NiemeyerHasher(L, base)
+    if route == 'hash_collection':
+        from geostructures.collections import FeatureCollection
+        pts = [GeoPoint(c, properties={'i': i}) for i, c in enumerate(coords)]
+        d = hasher.hash_collection(FeatureCollection(pts), agg_fn=lambda shapes: [s.properties['i'] for s in shapes])
+        filed = {}
+        for k, ids in d.items():
+            for i in ids:
+                filed.setdefault(i, []).append(k)
+    else:
+        if route == 'hash_coordinates-again':
+            # the same hasher has answered for this very sequence before, and the caller emptied that answer in place
+            # (dict and the lists inside): answers are values, not shared storage
+            first = hasher.hash_coordinates(coords, agg_fn=list)
+            for v in list(first.values()):
+                if isinstance(v, list):
+                    v.clear()
+            first.clear()
+        d = hasher.hash_coordinates(coords, agg_fn=list)
+        pos = {}
+        for i, c in enumerate(coords):
+            pos.setdefault(id(c), []).append(i)
+        filed = {}
+        for k, cs in d.items():
+            seen = {}
+            for c in cs:
+                n = seen.get(id(c), 0)
+                seen[id(c)] = n + 1
+                filed.setdefault(pos[id(c)][n], []).append(k)
+        counts = hasher.hash_coordinates(coords)
+        assert {k: len(v) for k, v in d.items()} == counts, ('default agg_fn (count) disagrees with the coordinates filed', counts)
+    assert sorted(filed) == list(range(len(coords))) and all(len(v) == 1 for v in filed.values()), \
+        ('not every coordinate is filed under exactly one geohash', filed)
+    return [filed[i][0] for i in range(len(coords))]
+
+
+def ref_encode(lon, lat, L, base):
+    """The tiling's own answer, exact and independent of the code under check: bisection on rationals of the
+    base's coordinate range, log2(base) bits per character starting with longitude, a value exactly on a
+    midpoint belongs to the lower half (the only rule under which the prefix clause can hold on cell edges)."""
+    lon, lat = F(lon), F(lat)
+    cfg = CFG[base]
+    w, e, s, n = F(cfg['min_x']), F(cfg['max_x']), F(cfg['min_y']), F(cfg['max_y'])
+    nbits = {16: 4, 32: 5, 64: 6}[base]
+    out, lon_turn = '', True
+    for _ in range(max(L, 0)):
+        v = 0
+        for _b in range(nbits):
+            v <<= 1
+            if lon_turn:
+                mid = (w + e) / 2
+                if lon > mid:
+                    v, w = v | 1, mid
+                else:
+                    e = mid
+            else:
+                mid = (s + n) / 2
+                if lat > mid:
+                    v, s = v | 1, mid
+                else:
+                    n = mid
+            lon_turn = not lon_turn
+        out += cfg['charset'][v]
+    return out
+
+
+# ------------------------------------------------------------------ in-place mutations of a returned container
+def mutate(obj, how, rng):
+    """what a caller may do to an answer it owns: use it as a work queue, prune it, extend it"""
+    if isinstance(obj, set):
+        if how == 0:
+            while obj:
+                obj.pop()
+        elif how == 1:
+            obj.clear()
+        elif how == 2:
+            for x in sorted(obj)[::2]:
+                obj.discard(x)
+        elif how == 3:
+            obj.add('tampered')
+            obj.add('')
+        elif how == 4:
+            obj.intersection_update(sorted(obj)[:1])
+        else:
+            x = sorted(obj)[rng.randrange(len(obj))] if obj else ''
+            obj.discard(x)
+            obj.add(x + x[-1:] if x else 'x')
+        return ['drain with pop()', 'clear()', 'discard every other', 'add foreign strings', 'intersection_update to one', 'replace one element'][min(how, 5)]
+    if isinstance(obj, list):
+        [lambda: obj.clear(), lambda: obj.reverse(), lambda: obj.pop() if obj else None, lambda: obj.append('tampered'),
+         lambda: obj.sort(reverse=True), lambda: obj.__setitem__(slice(0, 2), ['tampered'])][how % 6]()
+        return ['clear()', 'reverse()', 'pop()', 'append', 'sort(reverse)', 'slice assignment'][how % 6]
+    if isinstance(obj, dict):
+        if how % 2:
+            for k in list(obj):
+                obj[k] = None
+            obj['tampered'] = 1
+            return 'overwrite values, add a key'
+        obj.clear()
+        return 'clear()'
+    raise TypeError(f'no mutation for {type(obj)}')
 
 
 # ------------------------------------------------------------------ the property on the implementation's answers
@@ -279,19 +394,23 @@ def main():
             flag(j, 'decode-rejects', f'niemeyer_to_geobox({h!r}, {base}) gave {out[0]} {out[1] if out[0] == "Err" else "a box"}, expected {exp[1]} ({why})')
 
     @total('children', lambda i: None)
-    def add_children(h, base, dec=None):
-        rk = impl_children(h, base)
+    def add_children(h, base, dec=None, given=None, history=None):
+        """given: an answer already obtained (the later queries of a history); history: what happened before it"""
+        rk = impl_children(h, base) if given is None else given
         if rk[0] == 'Ok' and not all(isinstance(k, str) for k in rk[1]):
             raise TypeError(f'sub-hashes {rk[1]!r}')
-        j = add(f'KChildren {zlit(base)} {slit(h)} {reslit(rk, lambda ks: listlit([slit(k) for k in ks]))}',
-                {'k': 'children', 'base': base, 'hash': h, 'out': list(rk)})
+        m = {'k': 'children', 'base': base, 'hash': h, 'out': list(rk)}
+        if history:
+            m['history'] = history
+        j = add(f'KChildren {zlit(base)} {slit(h)} {reslit(rk, lambda ks: listlit([slit(k) for k in ks]))}', m)
         if dec is None:
-            return
+            return j
         if rk[0] != 'Ok':
             flag(j, 'children', f'raised {rk[1]}')
         else:
             for cl, det in oracle_children(h, base, dec, rk[1]):
-                flag(j, cl, det)
+                flag(j, cl, det + (f' [{history[-1]}]' if history else ''))
+        return j
 
     xcount = itertools.count()
 
@@ -401,6 +520,255 @@ def main():
                     cross_bases(h, base, rd)
             add_encode(c, L2, base, expect=h[:L2], why='encode-prefix')
 
+    # ---------------------------------------------------------------- 2b. many coordinates in ONE call
+    # Mechanism class: anything that makes the geohash under which a coordinate is filed depend on the OTHER
+    # coordinates of the same call or on their order (a "still in the previous cell" fast path, a per-call cache keyed
+    # by rounded values, sorting/bisecting shortcuts, batching).  The sequences put successive coordinates exactly on
+    # the west/south/east/north edges and the four corners of the cell of the coordinate before them (cells whose
+    # edges are also grid lines of a coarser length included), walk along the edges, interleave two adjacent cells,
+    # repeat objects and equal coordinates, and shuffle; every coordinate of every call must be filed under exactly
+    # the model's `encode` of itself, under what it gets when encoded alone, and under the tiling's own cell
+    # (ref_encode); the same sequence at a shorter length must give prefixes.
+    def anchor_cell(base, L):
+        """(w, e, s, n) of an in-range cell of length L, placed on the grid of a random coarser length L0 <= L
+        (so that its west/south edges are often also edges of the coarser cells); exact in floats for L <= 12"""
+        z = CFG[base]['charset'][0] * L
+        _, _, ex, ey = GH._decode_niemeyer(z, base)
+        cw, ch = 2 * ex, 2 * ey
+        for _ in range(40):
+            L0 = rng.randint(1, L)
+            c0 = Coordinate(rng.uniform(-180, 180), rng.uniform(-90, 90))
+            w0, e0, s0, n0 = (float(v) for v in cell_of(GH._decode_niemeyer(GH._coord_to_niemeyer(c0, L0, base), base)))
+            kx, ky = round((e0 - w0) / cw), round((n0 - s0) / ch)
+            ix = rng.choice([0, kx // 2, kx - 1, rng.randrange(kx)])
+            iy = rng.choice([0, ky // 2, ky - 1, rng.randrange(ky)])
+            w, s = w0 + ix * cw, s0 + iy * ch
+            if -180 <= w and w + cw <= 180 and -90 <= s and s + ch <= 90:
+                return w, w + cw, s, s + ch
+        return 0.0, cw, 0.0, ch
+
+    def cell_track(cell):
+        """named coordinates on and around a cell: (interiors, specials) as lists of (name, (x, y))"""
+        w, e, s, n = cell
+        cw, ch = e - w, n - s
+        cx, cy = (w + e) / 2, (s + n) / 2
+        rx, ry = w + cw * rng.uniform(0.05, 0.95), s + ch * rng.uniform(0.05, 0.95)
+        interiors = [('centre', (cx, cy)), ('interior', (rx, ry)),
+                     ('just-inside-SW', (math.nextafter(w, math.inf), math.nextafter(s, math.inf))),
+                     ('just-inside-NE', (math.nextafter(e, -math.inf), math.nextafter(n, -math.inf)))]
+        xi, yi = rng.choice([cx, rx]), rng.choice([cy, ry])
+        specials = [('W-edge', (w, yi)), ('S-edge', (xi, s)), ('E-edge', (e, yi)), ('N-edge', (xi, n)),
+                    ('SW-corner', (w, s)), ('NW-corner', (w, n)), ('SE-corner', (e, s)), ('NE-corner', (e, n)),
+                    ('W-neighbour', (w - cw / 2, cy)), ('S-neighbour', (cx, s - ch / 2)), ('SW-neighbour', (w - cw / 2, s - ch / 2)),
+                    ('E-neighbour', (e + cw / 2, cy)), ('N-neighbour', (cx, n + ch / 2)),
+                    ('just-outside-W', (math.nextafter(w, -math.inf), cy)), ('just-outside-S', (cx, math.nextafter(s, -math.inf)))]
+        ok = lambda p: -180 <= p[1][0] <= 180 and -90 <= p[1][1] <= 90     # noqa: E731
+        return [p for p in interiors if ok(p)], [p for p in specials if ok(p)]
+
+    def build_sequence(pattern, base, L):
+        cell = anchor_cell(base, L)
+        ins, sp = cell_track(cell)
+        name = ['edge-after-interior', 'shuffle-with-repeats', 'edge-walk', 'interior-after-edge', 'two-adjacent-cells'][pattern]
+        if pattern == 0:
+            rng.shuffle(sp)
+            seq = [q for p in sp for q in (rng.choice(ins), p)]
+        elif pattern == 1:
+            seq = ins + sp + [rng.choice(ins + sp) for _ in range(rng.randint(3, 8))]
+            rng.shuffle(seq)
+        elif pattern == 2:
+            d = dict(sp)
+            walk = ['W-edge', 'SW-corner', 'S-edge', 'SE-corner', 'E-edge', 'NE-corner', 'N-edge', 'NW-corner', 'W-edge', 'SW-corner']
+            if rng.random() < 0.5:
+                walk.reverse()
+            seq = [ins[0]] + [(k, d[k]) for k in walk if k in d] + [ins[1]]
+        elif pattern == 3:
+            rng.shuffle(sp)
+            seq = [q for p in sp for q in (p, rng.choice(ins))] + [sp[0]]
+        else:
+            w, e, s, n = cell
+            other = rng.choice([(w - (e - w), w, s, n), (w, e, s - (n - s), s), (w - (e - w), w, s - (n - s), s)])
+            if other[0] < -180 or other[2] < -90:
+                other = (e, e + (e - w), s, n) if e + (e - w) <= 180 else cell
+            ins2, sp2 = cell_track(other)
+            a, b = ins + sp[:8], ins2 + sp2[:8]
+            rng.shuffle(a)
+            rng.shuffle(b)
+            seq = [q for pair in itertools.zip_longest(a, b) for q in pair if q is not None]
+        return name, cell, seq
+
+    seq_id = itertools.count()
+
+    @total('sequence', lambda i: None)
+    def add_sequence(names, coords, L, base, route, why, cell):
+        sid = next(seq_id)
+        r = guarded(lambda: impl_sequence(coords, L, base, route))
+        pts = [[jf(c.longitude), jf(c.latitude)] for c in coords]
+        if r[0] != 'Ok':
+            i = add('KMalformed', {'k': 'sequence', 'base': base, 'len': L, 'route': route, 'pattern': why, 'seq': pts, 'names': names, 'out': list(r)})
+            flag(i, 'encode-sequence', f'{route} on a sequence of {len(coords)} coordinates: {r[1]} (an exception, a coordinate filed under '
+                                       f'no/several geohashes, or counts that disagree with the coordinates filed)')
+            return None
+        keys = r[1]
+        if not all(isinstance(k, str) for k in keys):
+            raise TypeError(f'keys {keys!r}')
+        for idx, (c, k) in enumerate(zip(coords, keys)):
+            i = add(f'KEncode {zlit(base)} {fq(c.longitude)} {fq(c.latitude)} {zlit(L)} (Ok {slit(k)})',
+                    {'k': 'encode', 'base': base, 'lon': jf(c.longitude), 'lat': jf(c.latitude), 'len': L, 'route': route,
+                     'out': ['Ok', k], 'sequence': {'id': sid, 'pattern': why, 'index': idx, 'what': names[idx],
+                                                    'previous': names[idx - 1] if idx else None, 'cell_w_e_s_n': list(cell)},
+                     'seq': pts})
+            nontrivial.add(('seq', base, L, c.longitude, c.latitude, names[idx - 1] if idx else None))
+            alone = guarded(lambda: GH._coord_to_niemeyer(c, L, base))
+            ref = ref_encode(c.longitude, c.latitude, L, base)
+            prev = f'after {names[idx - 1]} {coords[idx - 1].to_float()}' if idx else 'first of the call'
+            if alone != ('Ok', k):
+                flag(i, 'encode-function-of-coordinate', f'{names[idx]} {c.to_float()} ({prev}) is filed under {k!r} inside the call '
+                                                         f'but encodes to {alone[1]!r} on its own')
+            if ref != k:
+                flag(i, 'encode-tiling-cell', f'{names[idx]} {c.to_float()} ({prev}) is filed under {k!r}; the cell of the tiling that owns it is {ref!r}')
+        return keys
+
+    n_seq = 600 if thorough else 90
+    for nq in range(n_seq):
+        base = [16, 32, 64][nq % 3]
+        L = 1 + (nq // 3) % 12 if nq < 36 else rng.randint(1, 12)
+        pattern = (nq // 3 + nq // 36) % 5
+        why, cell, seq = build_sequence(pattern, base, L)
+        names = [nm for nm, _ in seq]
+        objs = {}
+        coords = []
+        for nm, (x, y) in seq:
+            # the same object when a named point recurs (half of the time), an equal twin otherwise
+            if (nm, x, y) in objs and rng.random() < 0.5:
+                coords.append(objs[(nm, x, y)])
+            else:
+                objs[(nm, x, y)] = Coordinate(x, y)
+                coords.append(objs[(nm, x, y)])
+        sroute = SEQ_ROUTES[nq % len(SEQ_ROUTES)] if nq % 7 else 'hash_coordinates'
+        ck.count('sequence:' + why)
+        keys = add_sequence(names, coords, L, base, sroute, why, cell)
+        if keys is not None and L > 1:
+            L2 = rng.randint(1, L - 1)
+            short = add_sequence(names, coords, L2, base, 'hash_coordinates', why + ' (shorter length)', cell)
+            if short is not None:
+                for idx, (k, k2) in enumerate(zip(keys, short)):
+                    if k[:L2] != k2:
+                        flag(len(cases) - len(coords) + idx, 'encode-prefix',
+                             f'{names[idx]} {coords[idx].to_float()}: length {L2} gives {k2!r}, not a prefix of {k!r} (length {L}) in the same sequence')
+        # a whole sequence as one MultiGeoPoint: the set of cells is the set of the members' own cells
+        if nq % 3 == 0:
+            def mp():
+                from geostructures.multistructures import MultiGeoPoint
+                return sorted(GH.NiemeyerHasher(L, base).hash_shape(MultiGeoPoint([GeoPoint(c) for c in coords])))
+            got = guarded(mp)
+            exp = sorted({ref_encode(c.longitude, c.latitude, L, base) for c in coords})
+            if got != ('Ok', exp):
+                i = add('KMalformed', {'k': 'sequence', 'base': base, 'len': L, 'route': 'hash_shape(MultiGeoPoint)', 'pattern': why,
+                                       'seq': [[jf(c.longitude), jf(c.latitude)] for c in coords], 'names': names, 'out': list(got)})
+                flag(i, 'encode-tiling-cell', f'hash_shape(MultiGeoPoint of the sequence) gave {got[1]}, the cells owning the members are {exp}')
+
+    # ---------------------------------------------------------------- 2c. histories: answers are values, not shared storage
+    # Mechanism class: memoisation / object reuse behind an entry point that hands out a MUTABLE container (lru_cache on
+    # a set-returning function, a module-level scratch list, a per-hasher dict reused between calls).  History: ask,
+    # change the answer in place the way a caller that owns it may (drain it as a work queue, prune it, extend it), ask
+    # again with the same arguments, then with other arguments (child, sibling, the same string under another base),
+    # change again, ask again.  Every later answer must equal the first-call answer, the model and the tiling oracle.
+    def children_history(h, base):
+        cs = CFG[base]['charset']
+        i0, r0 = add_decode(h, base, expect_valid=True, why='history')
+        if r0[0] != 'Ok':
+            return
+        dec = r0[1]
+        hist = []
+        raw = guarded(lambda: GH._get_niemeyer_subhashes(h, base))
+        if raw[0] != 'Ok' or not isinstance(raw[1], (set, frozenset, list, tuple)):
+            add_children(h, base, dec)
+            return
+        first = ('Ok', sorted(raw[1]))
+        add_children(h, base, dec, given=first, history=['first query'])
+        for step in range(2):
+            obj = raw[1]
+            if isinstance(obj, (set, list)):
+                hist.append(f'the answer of query {step + 1} was changed in place: ' + mutate(obj, rng.randrange(6), rng))
+            else:
+                hist.append(f'the answer of query {step + 1} is immutable ({type(obj).__name__})')
+            if step == 0:
+                # other arguments in between: a child, a sibling / the parent, the same string under another base
+                for h2, b2 in [(h + rng.choice(cs), base), ((h[:-1] + rng.choice(cs)) if h else cs[0], base), (h[:-1], base)][:3 if h else 1] + \
+                              [(h, ob) for ob in (16, 32, 64) if ob != base and valid_in(h, ob)][:1]:
+                    r2 = impl_decode(h2, b2)
+                    if r2[0] == 'Ok':
+                        add_children(h2, b2, r2[1], history=hist + [f'then sub-hashes of {h2!r} (base {b2})'])
+            raw = guarded(lambda: GH._get_niemeyer_subhashes(h, base))
+            again = ('Ok', sorted(raw[1])) if raw[0] == 'Ok' and isinstance(raw[1], (set, frozenset, list, tuple)) else raw
+            j = add_children(h, base, dec, given=again, history=hist + [f'query {step + 2} with the same arguments'])
+            ck.count('history:children')
+            nontrivial.add(('history', base, h, step))
+            if j is not None and again != first:
+                flag(j, 'children-stable', f'sub-hashes of {h!r} (base {base}) changed between queries: first {len(first[1])} strings, '
+                                           f'now {again[1] if again[0] != "Ok" else len(again[1])} ({hist[-1]})')
+            if raw[0] != 'Ok':
+                return
+
+    n_hist = 240 if thorough else 45
+    for nh in range(n_hist):
+        base = [16, 32, 64][nh % 3]
+        cs = CFG[base]['charset']
+        Lh = [0, 1, 1, 2, 2, 3, 4, 6][(nh // 3) % 8]
+        if Lh <= 1:
+            h = ''.join(rng.choice(cs) for _ in range(Lh))
+        else:
+            h = GH._coord_to_niemeyer(Coordinate(rng.uniform(-180, 180), rng.uniform(-90, 90)), Lh, base)
+        children_history(h, base)
+
+    # the other answers that are mutable objects: the box of a cell (its properties / corners reassigned by the caller),
+    # the dict of hash_coordinates and the set of hash_shape(GeoPoint) (both on the SAME hasher and the same arguments)
+    def other_history(h, base):
+        r0 = impl_decode(h, base)
+        if r0[0] != 'Ok' or not in_range(r0[1]) or cell_of(r0[1])[1] == 180:
+            return
+        dec = r0[1]
+        lon, lat = dec[0], dec[1]
+
+        def tamper_box():
+            b = GH.niemeyer_to_geobox(h, base)
+            b.set_property('niemeyer_geohash', 'tampered')
+            b.nw_bound, b.se_bound = b.se_bound, b.nw_bound
+            b2 = GeoBox.from_niemeyer_geohash(h, base)
+            b2.nw_bound = Coordinate(0.0, 0.0)
+        guarded(tamper_box)
+        add_box(h, base, dec, [(lon, lat)], nroutes=1)
+        add_box(h, base, dec, [(lon, lat)])
+        hasher = GH.NiemeyerHasher(len(h), base)
+        c = Coordinate(lon, lat)
+        p = GeoPoint(c)
+
+        def tamper_sets():
+            s1 = hasher.hash_shape(p)
+            mutate(s1, rng.randrange(6), rng)
+            d1 = hasher.hash_coordinates([c, c])
+            mutate(d1, rng.randrange(2), rng)
+        guarded(tamper_sets)
+
+        def again():
+            s2 = hasher.hash_shape(p)
+            d2 = hasher.hash_coordinates([c, c])
+            assert isinstance(s2, set) and len(s2) == 1 and list(d2.values()) == [2] and set(d2) == s2, (s2, d2)
+            return next(iter(s2))
+        r = guarded(again)
+        i = add(f'KEncode {zlit(base)} {fq(c.longitude)} {fq(c.latitude)} {zlit(len(h))} {reslit(r, slit)}',
+                {'k': 'encode', 'base': base, 'lon': jf(c.longitude), 'lat': jf(c.latitude), 'len': len(h), 'route': 'same hasher, second query',
+                 'out': list(r), 'history': ['hash_shape(GeoPoint) and hash_coordinates answered once for this coordinate on this hasher; '
+                                             'both answers were changed in place; asked again']})
+        ck.count('history:box/point/coordinates')
+        if r != ('Ok', h):
+            flag(i, 'reencode-centre', f'second query on the same hasher after the first answers were changed in place: got {r}, expected {h!r}')
+
+    for nh in range(n_hist // 3):
+        base = [16, 32, 64][nh % 3]
+        Lh = rng.randint(1, 8)
+        other_history(GH._coord_to_niemeyer(Coordinate(rng.uniform(-179, 179), rng.uniform(-89, 89)), Lh, base), base)
+
     # ---------------------------------------------------------------- 3. rejection / error behaviour (fixed)
     outsiders = {16: 'gGzA -=_é', 32: 'ailoAZ-= é', 64: '-+/ .~é中'}
     # line ends, control characters and non-ASCII spaces: what an unstripped line of a file carries, and what
@@ -489,7 +857,14 @@ def main():
                    'range limits), each encoded under all three bases in shuffled order through one of four routes '
                    '(_coord_to_niemeyer, hash_coordinates, hash_shape(GeoPoint), hash_coordinates with agg_fn), decoded back, '
                    'cross-decoded under the other bases, and re-encoded at a shorter length; fixed rejection corpus decoded under all '
-                   'three bases in rotating order. non-trivial = distinct in-range cells + distinct (base, length, coordinate) triples',
+                   'three bases in rotating order; sequences of coordinates hashed in ONE call (hash_coordinates with list/count agg_fn, '
+                   'hash_collection of points, hash_shape(MultiGeoPoint)) whose successive members sit exactly on the W/S/E/N edges and the four '
+                   'corners of the previous member\'s cell (cells aligned to coarser grid lines included), edge walks, two interleaved adjacent cells, '
+                   'repeats and shuffles, at lengths 1..12 and again at a shorter length: every member against the model, its own encoding alone, '
+                   'the exact tiling cell and the prefix clause; histories on answers that are mutable containers (_get_niemeyer_subhashes sets, '
+                   'niemeyer_to_geobox boxes, hash_shape(GeoPoint) sets, hash_coordinates dicts): ask, change the answer in place, ask again with the '
+                   'same and with other arguments. non-trivial = distinct in-range cells + distinct (base, length, coordinate) triples + distinct '
+                   '(base, length, coordinate, predecessor) of the sequences + (cell, query number) of the histories',
               assumptions=['floats are read exactly (float.as_integer_ratio); the float code is exact on these inputs for lengths <= 12 (DESIGN section 3)',
                            'the four observation routes call the same module-level function (checked: all routes are compared with the same model function)'])
 
@@ -503,11 +878,32 @@ def replay(path):
         print('implementation now:', impl_decode(m['hash'], m['base']))
     elif k == 'encode':
         c = Coordinate(m['lon'][0], m['lat'][0])
-        print('implementation now:', [impl_encode(c, m['len'], m['base'], rt) for rt in range(4)])
+        print('implementation now (the coordinate on its own, four routes):', [impl_encode(c, m['len'], m['base'], rt) for rt in range(4)])
+        print('cell of the tiling that owns it:', ref_encode(c.longitude, c.latitude, m['len'], m['base']))
+        if m.get('seq'):
+            coords = [Coordinate(x[0], y[0]) for x, y in m['seq']]
+            for rt in SEQ_ROUTES:
+                rs = guarded(lambda: impl_sequence(coords, m['len'], m['base'], rt))
+                print(f'implementation now, whole sequence through {rt}: position {m["sequence"]["index"]} is filed under',
+                      rs[1][m['sequence']['index']] if rs[0] == 'Ok' else rs)
+    elif k == 'sequence':
+        coords = [Coordinate(x[0], y[0]) for x, y in m['seq']]
+        for rt in SEQ_ROUTES:
+            print(f'implementation now, through {rt}:', guarded(lambda: impl_sequence(coords, m['len'], m['base'], rt)))
+        print('cells of the tiling:', [ref_encode(c.longitude, c.latitude, m['len'], m['base']) for c in coords])
     elif k in ('box', 'box-reject'):
         print('implementation now:', [(lambda x: x if x[0] == 'Err' else x[1][1])(impl_box(m['hash'], m['base'], rt)) for rt in range(3)])
     elif k == 'children':
         print('implementation now:', impl_children(m['hash'], m['base']))
+        if m.get('history'):
+            print('history recorded:', m['history'])
+
+            def hist():
+                a = GH._get_niemeyer_subhashes(m['hash'], m['base'])
+                n1 = len(a)
+                a.clear()
+                return n1, sorted(GH._get_niemeyer_subhashes(m['hash'], m['base']))
+            print('implementation now, ask / clear() the answer / ask again: (size of the first answer, second answer) =', guarded(hist))
     print('gallina case:', r.get('gallina_case'))
     model_side(r.get('gallina_case'), m)
 
